@@ -67,18 +67,30 @@ Proof.
 Qed.
 
 Section Prom.
-  Variables str_ok int_ok : node -> bool.
+  Variables str_ok int_ok null_ok : node -> bool.
   Hypothesis H_str : forall n, n_kind n = KScalar -> n_tag n <> nullTag -> str_ok n = true.
+  (** a null-tagged scalar that spells a null resolves to null (false only for an explicit !!null tag on a quoted text) *)
+  Hypothesis H_null : forall n, n_kind n = KScalar -> n_tag n = nullTag -> null_text (n_value n) -> null_ok n = true.
+
+  Lemma plain_null_ok x : plain_node x -> n_kind x = KScalar -> n_tag x = nullTag -> null_scalar null_ok x = true.
+  Proof.
+    intros [_ H] K T. rewrite K in H. destruct H as (_ & _ & _ & _ & Hn).
+    unfold null_scalar. rewrite T. cbn [String.eqb Ascii.eqb Bool.eqb andb]. change (nullTag =? nullTag) with true. cbn [andb].
+    apply H_null; auto.
+  Qed.
+
+  Lemma null_scalar_tag x : n_tag x <> nullTag -> null_scalar null_ok x = false.
+  Proof. intros T. unfold null_scalar. apply String.eqb_neq in T. now rewrite T. Qed.
 
   Lemma deref_plain m : n_alias m = None -> deref m = m.
   Proof. unfold deref. now intros ->. Qed.
 
   (** A plain scalar key that is not null-tagged decodes to its text. *)
   Lemma dec_key_scalar k :
-    plain_node k -> n_kind k = KScalar -> n_tag k <> nullTag -> dec_string str_ok k = DOk (n_value k).
+    plain_node k -> n_kind k = KScalar -> n_tag k <> nullTag -> dec_string str_ok null_ok k = DOk (n_value k).
   Proof.
-    intros [Ha _] K T. unfold dec_string. rewrite (deref_plain k Ha).
-    apply String.eqb_neq in T. rewrite T, K. now rewrite (H_str k K (proj1 (String.eqb_neq _ _) T)).
+    intros [Ha _] K T. unfold dec_string. rewrite (deref_plain k Ha), K, (null_scalar_tag k T).
+    now rewrite (H_str k K T).
   Qed.
 
   Definition key_text (kv : node * node) : string := n_value (fst kv).
@@ -111,7 +123,7 @@ Section Prom.
     NoDup (map key_text ps) ->
     (forall s, In s (map key_text ps) -> ~ In s done) ->
     (forall fields, known = Some fields -> forall s, In s (map key_text ps) -> In s fields) ->
-    map_loop str_ok known (flatten ps) None done acc None =
+    map_loop str_ok null_ok known (flatten ps) None done acc None =
     Some (acc ++ map (fun kv => (key_text kv, snd kv)) ps, None, None).
   Proof.
     induction ps as [|[k v] r IH]; intros done acc Hk Hnd Hdone Hknown; cbn [flatten flat_map app map_loop map fst snd].
@@ -123,7 +135,7 @@ Section Prom.
       inversion Hnd as [|x l Hn Hr]; subst.
       assert (IHr : forall done' acc',
                  (forall s, In s (map key_text r) -> ~ In s done') ->
-                 map_loop str_ok known (flatten r) None done' acc' None =
+                 map_loop str_ok null_ok known (flatten r) None done' acc' None =
                  Some (acc' ++ map (fun kv => (key_text kv, snd kv)) r, None, None)).
       { intros done' acc' Hd. apply IH; auto.
         - intros k0 v0 H0. apply (Hk k0 v0). right. exact H0.
@@ -148,11 +160,11 @@ Section Prom.
     plain_node m -> n_kind m = KMapping ->
     good_keys (mapping_nodes m) ->
     (forall fields, known = Some fields -> forall s, In s (map key_text (mapping_nodes m)) -> In s fields) ->
-    dec_fields str_ok known m = DOk (map (fun kv => (key_text kv, snd kv)) (mapping_nodes m)).
+    dec_fields str_ok null_ok known m = DOk (map (fun kv => (key_text kv, snd kv)) (mapping_nodes m)).
   Proof.
     intros Hp K [Hk Hnd] Hknown. unfold dec_fields. destruct Hp as [Ha Hp']. rewrite (deref_plain m Ha).
     pose proof (plain_mapping_content m (conj Ha Hp') K) as Ec.
-    rewrite K in Hp'. destruct Hp' as (T & _). rewrite T. cbn [String.eqb Ascii.eqb Bool.eqb]. rewrite K.
+    rewrite K in Hp'. destruct Hp' as (T & _). rewrite K.
     cbn [map_fields]. rewrite Ec, (unique_keys_nodup _ Hnd). cbn [negb].
     rewrite (map_loop_plain known (mapping_nodes m) [] [] Hk Hnd (fun _ _ X => X) Hknown). reflexivity.
   Qed.
@@ -162,11 +174,24 @@ Section Prom.
 
   Lemma dec_string_scalar x :
     plain_node x -> n_kind x = KScalar ->
-    dec_string str_ok x = if String.eqb (n_tag x) nullTag then DNull else DOk (n_value x).
+    dec_string str_ok null_ok x = if String.eqb (n_tag x) nullTag then DNull else DOk (n_value x).
   Proof.
-    intros [Ha _] K. unfold dec_string. rewrite (deref_plain x Ha).
-    destruct (String.eqb (n_tag x) nullTag) eqn:E; [reflexivity|].
-    rewrite K. now rewrite (H_str x K (proj1 (String.eqb_neq _ _) E)).
+    intros Hp K. pose proof Hp as [Ha _]. unfold dec_string. rewrite (deref_plain x Ha), K.
+    destruct (String.eqb (n_tag x) nullTag) eqn:E.
+    - apply String.eqb_eq in E. now rewrite (plain_null_ok x Hp K E).
+    - apply String.eqb_neq in E. rewrite (null_scalar_tag x E). now rewrite (H_str x K E).
+  Qed.
+
+  Lemma dec_duration_scalar (dur_ok : string -> bool) x :
+    plain_node x -> n_kind x = KScalar ->
+    dec_duration str_ok null_ok dur_ok x =
+    if String.eqb (n_tag x) nullTag then DNull else if dur_ok (n_value x) then DOk (n_value x) else DErr.
+  Proof.
+    intros Hp K. pose proof Hp as [Ha _]. unfold dec_duration.
+    rewrite (dec_string_scalar x Hp K), (deref_plain x Ha), K. cbn [kind_eqb andb].
+    destruct (String.eqb (n_tag x) nullTag) eqn:E; [|reflexivity].
+    apply String.eqb_eq in E. pose proof (plain_null_ok x Hp K E) as N. unfold null_scalar in N.
+    apply andb_true_iff in N. destruct N as [_ N]. rewrite N. reflexivity.
   Qed.
 
   Lemma assoc_map_find name : forall ps : list (node * node),
@@ -181,7 +206,7 @@ Section Prom.
   (** map[string]string from a plain mapping whose keys are good and whose values are plain scalars *)
   Lemma strmap_values_plain : forall ps : list (node * node),
     (forall k x, In (k, x) ps -> plain_node x /\ n_kind x = KScalar) ->
-    strmap_values str_ok (map (fun kv => (key_text kv, snd kv)) ps) =
+    strmap_values str_ok null_ok (map (fun kv => (key_text kv, snd kv)) ps) =
     Some (map (fun kv => (key_text kv, str_val (snd kv))) ps).
   Proof.
     induction ps as [|[k x] r IH]; intros H; cbn [map strmap_values key_text fst snd]; [reflexivity|].
@@ -194,7 +219,7 @@ Section Prom.
   Lemma dec_strmap_plain v :
     plain_node v -> n_kind v = KMapping -> good_keys (mapping_nodes v) ->
     (forall k x, In (k, x) (mapping_nodes v) -> plain_node x /\ n_kind x = KScalar) ->
-    dec_strmap str_ok v = DOk (map (fun kv => (key_text kv, str_val (snd kv))) (mapping_nodes v)).
+    dec_strmap str_ok null_ok v = DOk (map (fun kv => (key_text kv, str_val (snd kv))) (mapping_nodes v)).
   Proof.
     intros Hp K Hg Hv. unfold dec_strmap.
     rewrite (dec_fields_plain None v Hp K Hg) by (intros f X; discriminate).
@@ -202,8 +227,23 @@ Section Prom.
   Qed.
 
   Lemma dec_strmap_null v :
-    plain_node v -> n_kind v = KScalar -> n_tag v = nullTag -> dec_strmap str_ok v = DNull.
+    plain_node v -> n_kind v = KScalar -> n_tag v = nullTag -> dec_strmap str_ok null_ok v = DNull.
   Proof.
-    intros [Ha _] K T. unfold dec_strmap, dec_fields. rewrite (deref_plain v Ha), T. reflexivity.
+    intros Hp K T. pose proof Hp as [Ha _]. unfold dec_strmap, dec_fields.
+    rewrite (deref_plain v Ha), K, (plain_null_ok v Hp K T). reflexivity.
+  Qed.
+
+  Lemma dec_fields_null known v :
+    plain_node v -> n_kind v = KScalar -> n_tag v = nullTag -> dec_fields str_ok null_ok known v = DNull.
+  Proof.
+    intros Hp K T. pose proof Hp as [Ha _]. unfold dec_fields.
+    rewrite (deref_plain v Ha), K, (plain_null_ok v Hp K T). reflexivity.
+  Qed.
+
+  Lemma dec_slice_null {A} (dec : node -> dres A) v :
+    plain_node v -> n_kind v = KScalar -> n_tag v = nullTag -> dec_slice null_ok dec v = DNull.
+  Proof.
+    intros Hp K T. pose proof Hp as [Ha _]. unfold dec_slice.
+    rewrite (deref_plain v Ha), K, (plain_null_ok v Hp K T). reflexivity.
   Qed.
 End Prom.
